@@ -26,17 +26,18 @@
     C02_hit_server       the same through `Server.process` (real app)
     C02_hit_mime         the type is the table lookup of the selected NAME's extension
     C02_binary           arbitrary bytes (0, 13, 10, 255 spelled out)
-    C02_miss(_server)    selected = none → 404 + not-found page; C02_miss_reads: reads ⊆ [root/404.html]
+    C02_miss(_server)    selected = none → 404 + not-found page (no further hypothesis);
+                         C02_miss_reads: reads ⊆ [root/404.html]
     C02_query_fragment   `?…` / `#…` appended: the whole answer is unchanged (no tree hypothesis)
   Findings (kernel-checked witnesses `C02_…_violated` below, each excluded by one explicit
-  decidable hypothesis of `C02_hit` / `C02_miss` / `Standing` / `Spec.querySuffix`):
-    * a directory without index.html next to `<dir>.html`: 404 instead of `<dir>.html`;
-    * `/x.html` missing but `x.html.html` present: 404 instead of `x.html.html`;
-    * a directory that contains a DIRECTORY named `index.html`: 501 with an empty body, not 404;
-    * `/x` where `x` is missing and `x.html` is a DIRECTORY: 500, not 404;
-    * a fragment that contains `?` (`/a.txt#x?y`) becomes part of the path: 404 instead of the file;
-    * a working directory whose own path contains a byte FilterString refuses (space, quotes,
+  decidable hypothesis of `C02_hit` / `Standing` / `Spec.querySuffix`; open known findings):
+    * F44 a directory without index.html next to `<dir>.html`: 404 instead of `<dir>.html`;
+    * F45 `/x.html` missing but `x.html.html` present: 404 instead of `x.html.html`;
+    * F47 a fragment that contains `?` (`/a.txt#x?y`) becomes part of the path: 404 instead of the file;
+    * F43 a working directory whose own path contains a byte FilterString refuses (space, quotes,
       `&`, `|`, `;`): every file is answered 416.
+  Repaired (F46, regression `example`s below): a DIRECTORY named `index.html` inside the named
+  directory (was 501) and a DIRECTORY named `<p>.html` (was 500) now fall through to 404.
   Settled, not findings: a trailing slash on a file is a miss (the OS says ENOTDIR); dot-files and
   upper-case extensions are ordinary names (media type: C02Mime); `: @ [ ]` in the path do not
   disturb url-build-parse on `http://localhost<target>` and are allowed by `wfPath`.
@@ -142,13 +143,6 @@ def selected (t : Tree) (root : Loc) (segs : List Comp) (slash : Bool) : Option 
 def htmlRuleBlocked (t : Tree) (root : Loc) (segs : List Comp) (slash : Bool) : Bool :=
   !slash && (pick t root segs).isNone && (viaIndex t root segs).isNone &&
   (pick t root (withHtml segs)).isSome && (dirAt t root segs || endsHtml segs)
-
-/-- a DIRECTORY sits where the lookup expects a file: `index.html` inside the named directory, or
-    `<p>.html` when nothing is at `<p>` -/
-def oddDirectory (t : Tree) (root : Loc) (segs : List Comp) (slash : Bool) : Bool :=
-  (dirAt t root segs && dirAt t root (segs ++ [indexName])) ||
-  (!slash && (fileAt t root segs).isNone && !dirAt t root segs && !endsHtml segs &&
-    dirAt t root (withHtml segs))
 
 /-- `/s1/s2/…/sn` -/
 def pathOf (segs : List Comp) : Bytes := segs.flatMap (fun s => 47 :: s)
@@ -520,12 +514,10 @@ theorem C02_hit (ctx : Ctx) (root : Loc) (req : Request) (h : Standing ctx root 
     page, trailing slash on a file, …) the production chain answers `404 Not Found` with the
     not-found page — the tree's own `404.html` at the top of the served directory when that is a
     regular file, else the embedded page — and reads no other file.  Never a directory listing,
-    never another file's content.
-    Not covered (see `C02_index_dir_violated`, `C02_html_dir_violated`): a directory named
-    `index.html` inside the named directory, or a directory named `<p>.html`. -/
+    never another file's content.  (Includes, since repair F46, a directory named `index.html`
+    inside the named directory and a directory named `<p>.html`.) -/
 theorem C02_miss (ctx : Ctx) (root : Loc) (req : Request) (h : Standing ctx root req)
-    (hsel : Spec.selected ctx.tree root (Spec.segments req.uri) (Spec.trailingSlash req.uri) = none)
-    (hodd : Spec.oddDirectory ctx.tree root (Spec.segments req.uri) (Spec.trailingSlash req.uri) = false) :
+    (hsel : Spec.selected ctx.tree root (Spec.segments req.uri) (Spec.trailingSlash req.uri) = none) :
     ∃ hs, HeaderList.getHeaderList ctx.env ctx.now req = .ok hs ∧
       Controllers.execute ctx req false =
         .ok ⟨⟨[72, 84, 84, 80, 47, 49, 46, 49], 404, [78, 111, 116, 32, 70, 111, 117, 110, 100], hs,
@@ -539,8 +531,8 @@ theorem C02_miss (ctx : Ctx) (root : Loc) (req : Request) (h : Standing ctx root
   have key : isMatching ctx req = .ok false := by
     generalize Spec.segments req.uri = segs at *
     generalize Spec.trailingSlash req.uri = slash at *
-    simp only [Spec.selected, Spec.oddDirectory, Spec.pick, Spec.viaIndex, fileAt_look _ _ hd,
-      dirAt_look _ _ hd, withHtml_eq, endsHtml_eq, indexName_eq] at hsel hodd
+    simp only [Spec.selected, Spec.pick, Spec.viaIndex, fileAt_look _ _ hd,
+      dirAt_look _ _ hd, withHtml_eq, endsHtml_eq, indexName_eq] at hsel
     cases hK : look ctx.tree root segs with
     | file b =>
       cases slash with
@@ -550,7 +542,7 @@ theorem C02_miss (ctx : Ctx) (root : Loc) (req : Request) (h : Standing ctx root
       rw [isMatching_dir hS hK]
       cases hI : look ctx.tree root (segs ++ [indexHtml]) with
       | file bi => cases slash <;> simp [hK, hI] at hsel
-      | dir => simp [hK, hI] at hodd
+      | dir => rfl
       | missing => rfl
     | missing =>
       cases slash with
@@ -562,7 +554,7 @@ theorem C02_miss (ctx : Ctx) (root : Loc) (req : Request) (h : Standing ctx root
         | false =>
           cases hH : look ctx.tree root (addHtml segs) with
           | file bh => simp [hK, hH] at hsel
-          | dir => simp [hK, hH, hE] at hodd
+          | dir => rfl
           | missing => rfl
   rw [hfalse key, apply404 ctx root hS.served hs]
 
@@ -682,12 +674,11 @@ theorem C02_hit_server (ctx : Ctx) (root : Loc) (req : Request) (h : Standing ct
     reads nothing but (possibly) the tree's own `404.html`. -/
 theorem C02_miss_server (ctx : Ctx) (root : Loc) (req : Request) (h : Standing ctx root req)
     (hsel : Spec.selected ctx.tree root (Spec.segments req.uri) (Spec.trailingSlash req.uri) = none)
-    (hodd : Spec.oddDirectory ctx.tree root (Spec.segments req.uri) (Spec.trailingSlash req.uri) = false)
     (alloc : Nat) (d : Bytes) (script : List Transport.WCall) (flushOk : Bool)
     (hparse : Req.parse (Server.fillBuffer alloc d) = .ok req) :
     ∃ o, Server.process ctx .real alloc (.data d) script flushOk = .ok o ∧
       o.reads = (Spec.notFoundPage ctx.tree root).2.2 := by
-  obtain ⟨hs, _, he⟩ := C02_miss ctx root req h hsel hodd
+  obtain ⟨hs, _, he⟩ := C02_miss ctx root req h hsel
   have horigin : Server.isOriginForm req = true := by
     have := h.wf
     simp only [Spec.wfPath, Bool.and_eq_true, beq_iff_eq] at this
@@ -792,7 +783,6 @@ example : Spec.selected demoTree [asc "srv"] [asc "hollow"] false = none := by d
 example : Spec.selected demoTree [asc "srv"] [asc "a.bin"] true = none := by decide +kernel
 example : Spec.selected demoTree [asc "srv"] [asc "nothing"] false = none := by decide +kernel
 example : Spec.htmlRuleBlocked demoTree [asc "srv"] [asc "page"] false = false := by decide +kernel
-example : Spec.oddDirectory demoTree [asc "srv"] [asc "hollow"] false = false := by decide +kernel
 example : Spec.wfPath (asc "/docs/readme.txt") = true ∧ Spec.wfPath (asc "/sub/") = true ∧
     Spec.wfPath [47, 99, 97, 102, 195, 169, 46, 116, 120, 116] = true := by decide +kernel
 example : Spec.wfPath (asc "/") = false ∧ Spec.wfPath (asc "/a/../b") = false ∧ Spec.wfPath (asc "/a//b") = false ∧
@@ -817,7 +807,7 @@ theorem C02_binary :
 example : ∃ hs, Controllers.execute demoCtx (demoGet "/nothing") false =
     .ok ⟨⟨asc "HTTP/1.1", 404, asc "Not Found", hs, [wholePart Gen.Assets.notfoundBytes Gen.Assets.notfoundMime]⟩, []⟩ := by
   obtain ⟨hs, _, he⟩ := C02_miss demoCtx [asc "srv"] (demoGet "/nothing") (demoStanding _ (by decide +kernel))
-    (by decide +kernel) (by decide +kernel)
+    (by decide +kernel)
   exact ⟨hs, he⟩
 
 -- `C02_query_fragment` applies: `/page?x=1#top` is answered exactly as `/page`
@@ -849,25 +839,24 @@ theorem C02_html_html_violated :
     statusOf (Controllers.execute demoCtx (demoGet "/old.html") false) = some 404 :=
   ⟨demoStanding _ (by decide +kernel), by decide +kernel, by decide +kernel, by decide +kernel⟩
 
-/-- FINDING: `/odd` is a directory whose `index.html` is itself a DIRECTORY; the lookup selects
-    nothing, but the answer is `501 Not Implemented` with no part (the static controller claims the
-    request and then leaves the response untouched), not 404.  Hence `oddDirectory = false` in
-    `C02_miss`. -/
-theorem C02_index_dir_violated :
+-- regression (repair F46; formerly the witnesses C02_index_dir_violated / C02_html_dir_violated):
+-- `/odd` is a directory whose `index.html` is itself a DIRECTORY (was 501 with no part), `/ghost`
+-- is missing and `ghost.html` is a DIRECTORY (was 500): the lookup selects nothing and the answer
+-- is now the 404 page, nothing read — instances of `C02_miss`
+example :
     Standing demoCtx [asc "srv"] (demoGet "/odd") ∧
     Spec.selected demoTree [asc "srv"] (Spec.segments (asc "/odd")) (Spec.trailingSlash (asc "/odd")) = none ∧
-    Spec.oddDirectory demoTree [asc "srv"] [asc "odd"] false = true ∧
-    observed (Controllers.execute demoCtx (demoGet "/odd") false) = some (501, [], []) :=
-  ⟨demoStanding _ (by decide +kernel), by decide +kernel, by decide +kernel, by decide +kernel⟩
-
-/-- FINDING: `/ghost` does not exist and `ghost.html` is a DIRECTORY; the lookup selects nothing,
-    the answer is `500` (the controller asks for `/ghost/index.html`), not 404. -/
-theorem C02_html_dir_violated :
+    observed (Controllers.execute demoCtx (demoGet "/odd") false) =
+      some (404, [wholePart Gen.Assets.notfoundBytes Gen.Assets.notfoundMime], []) :=
+  ⟨demoStanding _ (by decide +kernel), by decide +kernel, by decide +kernel⟩
+example :
     Standing demoCtx [asc "srv"] (demoGet "/ghost") ∧
     Spec.selected demoTree [asc "srv"] (Spec.segments (asc "/ghost")) (Spec.trailingSlash (asc "/ghost")) = none ∧
-    Spec.oddDirectory demoTree [asc "srv"] [asc "ghost"] false = true ∧
-    statusOf (Controllers.execute demoCtx (demoGet "/ghost") false) = some 500 :=
-  ⟨demoStanding _ (by decide +kernel), by decide +kernel, by decide +kernel, by decide +kernel⟩
+    observed (Controllers.execute demoCtx (demoGet "/ghost") false) =
+      some (404, [wholePart Gen.Assets.notfoundBytes Gen.Assets.notfoundMime], []) :=
+  ⟨demoStanding _ (by decide +kernel), by decide +kernel, by decide +kernel⟩
+example : observed (Controllers.execute demoCtx (demoGet "/odd/") false) =
+    some (404, [wholePart Gen.Assets.notfoundBytes Gen.Assets.notfoundMime], []) := by decide +kernel
 
 /-- FINDING: a fragment containing `?` is not cut off: for `/a.bin#x?y` url-build-parse splits at
     the `?` first, the path becomes `/a.bin#x` and the file is not found, although `/a.bin` and
